@@ -1,0 +1,41 @@
+//! Verification hooks, compiled only with `--cfg specs_verif`.
+//!
+//! `yield_point` is called between the atomic steps of the shared-access
+//! entity allocation / deletion paths. It does nothing unless a harness has
+//! installed a scheduler callback, which can then decide which thread may take
+//! its next atomic step (deterministic replay of interleavings).
+
+use std::sync::atomic::{AtomicUsize, Ordering};
+
+/// `atomic_increment`: before the initial load of the counter.
+pub const INCREMENT_BEFORE_LOAD: u32 = 1;
+/// `atomic_increment`: before each compare-exchange.
+pub const INCREMENT_BEFORE_CAS: u32 = 2;
+/// `atomic_decrement`: before the initial load of the length.
+pub const DECREMENT_BEFORE_LOAD: u32 = 3;
+/// `atomic_decrement`: before each compare-exchange.
+pub const DECREMENT_BEFORE_CAS: u32 = 4;
+/// `Allocator::allocate_atomic`: before the index is marked as raised.
+pub const ALLOCATE_BEFORE_RAISE: u32 = 6;
+/// `Allocator::allocate_atomic`: before the generation is read.
+pub const ALLOCATE_BEFORE_GENERATION: u32 = 7;
+/// `Allocator::kill_atomic`: between the aliveness check and setting the bit.
+pub const KILL_ATOMIC_BEFORE_ADD: u32 = 8;
+
+static HOOK: AtomicUsize = AtomicUsize::new(0);
+
+/// Installs (or removes, with `None`) the scheduler callback.
+pub fn set_yield_hook(f: Option<fn(u32)>) {
+    HOOK.store(f.map(|f| f as usize).unwrap_or(0), Ordering::SeqCst);
+}
+
+/// Called at the instrumented sites; a no-op unless a hook is installed.
+#[inline]
+pub fn yield_point(site: u32) {
+    let p = HOOK.load(Ordering::SeqCst);
+    if p != 0 {
+        // SAFETY: only `set_yield_hook` stores here, and it stores a `fn(u32)`.
+        let f: fn(u32) = unsafe { std::mem::transmute::<usize, fn(u32)>(p) };
+        f(site);
+    }
+}
